@@ -305,7 +305,10 @@ Upd(e) ==
     [] e.ev = "end" ->
          /\ viol' = viol
               \cup (IF \E o \in DOMAIN e.open : e.open[o] # 0 THEN {"C09r_ConnsClosed"} ELSE {})
+              \* (a member that closed without being able to send LeaveGroup - injected fault - stays a member of the fake coordinator,
+              \* which has no session expiry: the partitions it was assigned are not handed to anybody else, nothing can be concluded)
               \cup (IF e.drained /\ cfg.startOffset = -2 /\ \E k \in DOMAIN stored : \E o \in 0 .. stored[k] - 1 : o \notin Get(delivered, k, {})
+                         /\ ~(\E m \in DOMAIN closedAt : Get(joined, OwnerOf(m), "") # "" /\ Get(joined, OwnerOf(m), "") \notin Get(left, OwnerOf(m), {}))
                       THEN {"C03_AtLeastOnce"} ELSE {})
          /\ UNCHANGED <<tid, cfg, stored, committed, asked, delivered, fetched, stream, pending, reading, handed, closedAt, joined, left, faulted, gens, lastFail, closing>>
     [] OTHER -> Same
